@@ -77,6 +77,18 @@ func oracleC14(c *CaseC14) *Failure {
 		return failf("C14/"+c.Algo+"/missing", "service %s is not registered under its name", c.Algo)
 	}
 	want := int64(refChecksum(c.Algo, d))
+	if len(d) <= 2048 { // harness self-check: the table form of the reference equals its bitwise definition
+		switch c.Algo {
+		case "CRC16":
+			if uint64(want) != refCRCBitwise(d, 16, 0x8005, 0xFFFF, true, true, 0) {
+				Col.BrokenHarness("reference CRC16 table/bitwise mismatch")
+			}
+		case "CRC32":
+			if uint64(want) != refCRCBitwise(d, 32, 0x04C11DB7, 0xFFFFFFFF, true, true, 0xFFFFFFFF) {
+				Col.BrokenHarness("reference CRC32 table/bitwise mismatch")
+			}
+		}
+	}
 	if got != want {
 		return failf("C14/"+c.Algo+"/value", "%s over %d bytes: library %d (%#x), reference %d (%#x)", c.Algo, len(d), got, got, want, want)
 	}
